@@ -60,17 +60,27 @@ func registryReplay(args []string) int {
 				tm.Add(op[1], op[2])
 			}
 		}
-		fail := func(what string, exp, got any) {
+		// used: the query is consulted by the checkers (Match, HasType, Empty, Contains, the *set* of GetAssociated);
+		// Len and the order / multiplicity of GetAssociated only feed message texts or nothing at all
+		failU := func(used bool, what string, exp, got any) {
 			if len(bad) < 10 {
-				bad = append(bad, map[string]any{"history": st.H, "query": what, "expected": exp, "observed": got})
+				bad = append(bad, map[string]any{"history": st.H, "query": what, "expected": exp, "observed": got, "used": used})
 			}
 		}
+		fail := func(what string, exp, got any) { failU(true, what, exp, got) }
 		for k, key := range keys {
 			want := st.Assoc[k]
 			got := reg.GetAssociated(key[0], key[1])
 			queries++
 			if !slices.Equal(got, want) && !(len(got) == 0 && len(want) == 0) {
-				fail(fmt.Sprintf("GetAssociated(%s,%s)", key[0], key[1]), want, got)
+				sameSet := true
+				for _, x := range want {
+					sameSet = sameSet && slices.Contains(got, x)
+				}
+				for _, x := range got {
+					sameSet = sameSet && slices.Contains(want, x)
+				}
+				failU(!sameSet, fmt.Sprintf("GetAssociated(%s,%s)", key[0], key[1]), want, got)
 			}
 			queries++
 			if reg.HasType(key[0], key[1]) != (len(want) > 0) {
@@ -94,13 +104,13 @@ func registryReplay(args []string) int {
 		}
 		queries += 4
 		if reg.Len() != st.Len {
-			fail("Len", st.Len, reg.Len())
+			failU(false, "Len", st.Len, reg.Len())
 		}
 		if reg.Empty() != (st.Len == 0) {
 			fail("Empty", st.Len == 0, reg.Empty())
 		}
 		if tm.Len() != st.TLen {
-			fail("TypesMap.Len", st.TLen, tm.Len())
+			failU(false, "TypesMap.Len", st.TLen, tm.Len())
 		}
 		if tm.Empty() != (st.TLen == 0) {
 			fail("TypesMap.Empty", st.TLen == 0, tm.Empty())
